@@ -60,6 +60,10 @@ var ufAxioms = map[string]func(app *Term) []*Term{
 }
 
 func init() {
+	ufAxioms["crnorm"] = func(a *Term) []*Term {
+		v := a.Args[0]
+		return []*Term{Eq(Eq(a, v), Not(Contains(v, StrC("\r")))), Not(Contains(a, StrC("\r")))}
+	}
 	ufAxioms["fmtverbs"] = func(a *Term) []*Term {
 		f := a.Args[0]
 		return []*Term{Eq(Eq(a, f), Not(Contains(f, StrC("%"))))}
